@@ -251,9 +251,10 @@ def sigma_filter(filename, region, step_size, box_size, shape, domask,
     # wait for all to complete (the barrier is cyclic, no reset is needed)
     barrier.wait()
 
+    # subtract the background from all the rows that are used to compute the
+    # rms, including the overlap with the neighbouring stripes
     logging.debug("background subtraction")
-    data[0 + ymin - data_row_min: data.shape[0] -
-         (data_row_max - ymax), :] -= ibkg[ymin:ymax, :]
+    data -= ibkg[data_row_min:data_row_max, :]
     logging.debug(".. done ")
 
     # reset/recycle the vals array
